@@ -16,7 +16,7 @@ import (
 )
 
 func init() {
-	stats.Rule("C08", "fault enumeration: encodings are sampled (rapid: sources as in C06 - all five store kinds hence all layouts as producer, three mapping kinds, plain and exact variants, mapping embedded or omitted) and, for each encoding, the fault set is enumerated completely: (1) EVERY cut point 0..len-1, (2) at every block boundary the flag byte replaced by undefined flags (a sample of 8 per boundary in the quick tier, all of them in the thorough tier), (3) mapping mismatch (other kind, same kind with accuracy >= 0.1% apart, or same kind and base with another index offset incl. one of the two being 0) in the stream vs receiver/supplied mapping, (4) mapping omitted and not supplied; each fault is tried against every consumer in {dense, sparse, paginated, collapsing-lowest, collapsing-highest} x {DecodeDDSketch, DecodeDDSketchWithExactSummaryStatistics, DecodeAndMergeWith into a non-empty receiver} x {mapping supplied, nil}. Oracle: no panic; a cut strictly inside a block must return an error; a cut on a block boundary must succeed when a mapping is known (supplied or among the complete blocks) and hold exactly fold_target(content of the complete blocks as read by the independent parser) (the exact-summary decoder additionally refuses non-empty content without a count, as documented); faults 2-4 must return an error; whenever err == nil the decoded content must equal the content of the complete blocks. An evaluation = one encoding with its whole fault set; non-trivial: the encoding has a bin block so that cuts fall strictly inside bin blocks (inside N, an index delta, a varfloat count); distinct by hash of the encoding.")
+	stats.Rule("C08", "fault enumeration: encodings are sampled (rapid: sources as in C06 - all five store kinds hence all layouts as producer, three mapping kinds, plain and exact variants, mapping embedded or omitted) and, for each encoding, the fault set is enumerated completely: (1) EVERY cut point 0..len-1, (2) at every block boundary the flag byte replaced by undefined flags (a sample of 8 per boundary in the quick tier, all of them in the thorough tier), (3) mapping mismatch (other kind, same kind with accuracy >= 0.1% apart, or same kind and base with another index offset incl. one of the two being 0) in the stream vs receiver/supplied mapping, (3b) the same mismatching stream offered three times to one persistent receiver; (4) mapping omitted and not supplied; each fault is tried against every consumer in {dense, sparse, paginated, collapsing-lowest, collapsing-highest} x {DecodeDDSketch, DecodeDDSketchWithExactSummaryStatistics, DecodeAndMergeWith into a non-empty receiver} x {mapping supplied, nil}. Oracle: no panic; a cut strictly inside a block must return an error; a cut on a block boundary must succeed when a mapping is known (supplied or among the complete blocks) and hold exactly fold_target(content of the complete blocks as read by the independent parser) (the exact-summary decoder additionally refuses non-empty content without a count, as documented); faults 2-4 must return an error; whenever err == nil the decoded content must equal the content of the complete blocks. An evaluation = one encoding with its whole fault set; non-trivial: the encoding has a bin block so that cuts fall strictly inside bin blocks (inside N, an index delta, a varfloat count); distinct by hash of the encoding.")
 }
 
 type consumer struct {
@@ -278,6 +278,36 @@ func c08Case(t *rapid.T) {
 					t.Fatalf("C08 %s: stream whose mapping differs from the %s mapping of the consumer %+v was decoded without error", sc, gen.KindOf(om), c)
 				}
 			}
+			// a persistent receiver is offered the same mismatching stream again (and again after a valid stream
+			// without mapping): refused every time
+			for _, kind := range []gen.StoreKind{{Name: "sparse"}, {Name: "paginated"}} {
+				for _, ex := range []bool{false, true} {
+					rc := skCfg{m: om, pos: kind, neg: kind, exact: ex}
+					r := rc.new()
+					var neutral []byte
+					rc.new().Encode(&neutral, true)
+					try := func(b []byte) (err error, pan any) {
+						defer func() { pan = recover() }()
+						return r.DecodeAndMergeWith(b), nil
+					}
+					for attempt := 1; attempt <= 3; attempt++ {
+						err, pan := try(enc)
+						nDecodes++
+						if pan != nil {
+							t.Fatalf("C08 %s: mapping mismatch, attempt %d on the same receiver: panic %v", sc, attempt, pan)
+						}
+						if err == nil {
+							t.Fatalf("C08 %s: stream whose mapping differs from the receiver's (%s, exact=%v) was accepted at attempt %d on the same receiver", sc, gen.KindOf(om), ex, attempt)
+						}
+						if attempt == 2 {
+							// a stream without mapping in between (whether it is accepted is not asserted: a refused decode may
+							// have left part of its content behind, and the exact-summary decoder then asks for statistics)
+							_, _ = try(neutral)
+						}
+					}
+				}
+			}
+			cl.label("fault:mapping-mismatch-repeated-on-same-receiver")
 		}
 		cl.label("fault:mapping-mismatch")
 	} else {
